@@ -44,6 +44,11 @@ DEFECTS = [
     ('missing-home-file-contents', ['file g.txt = -contents-of -rel-home no-such-file'], ('VALIDATION_ERROR',)),
     ('missing-home-file-arg', ['run % mark -existing-file -rel-home no-such-file'], ('VALIDATION_ERROR',)),
     ('missing-home-program', ['run -rel-home no-such-program'], ('VALIDATION_ERROR',)),
+    ('missing-file-rel-here-symbol', ['def path HERE = -rel-here .', 'file g.txt = -contents-of -rel HERE no-such-file'], ('VALIDATION_ERROR',)),
+    ('missing-file-rel-here-symbol-2', ['def path HERE1 = -rel-here hd', 'def path HERE2 = @[HERE1]@/no-such-file',
+                                        'run % mark -existing-file @[HERE2]@'], ('VALIDATION_ERROR',)),
+    ('missing-file-absolute', ['file g.txt = -contents-of /no-such-dir-at-root-of-fs/no-such-file'], ('VALIDATION_ERROR',)),
+    ('missing-file-act-home', ['file g.txt = -contents-of -rel-act-home no-such-file'], ('VALIDATION_ERROR',)),
     ('bad-integer', ['timeout = abc'], ('VALIDATION_ERROR', 'SYNTAX_ERROR')),
     ('bad-integer-float', ['timeout = 1.5'], ('VALIDATION_ERROR', 'SYNTAX_ERROR')),
     ('bad-regex', ["file g.txt = -contents-of -rel-home data.txt -transformed-by replace '(' x"], ('VALIDATION_ERROR', 'SYNTAX_ERROR')),
